@@ -364,3 +364,7 @@ MUTATIONS += [
       replace="            ManifestResourceConstraint::AtLeastAmount(_expected_at_least_amount) => {}\n            ManifestResourceConstraint::ExactNonFungibles(..) => {\n                return Err(\n                    ResourceConstraintError::NonFungibleConstraintNotValidForFungibleResource,",
       expect=["C37"]),
 ]
+MUTATIONS += [
+ dict(name="benign-c04-balance-test-flipped", props=["C04"], benign=True, file="radix-engine-interface/src/blueprints/resource/resource.rs",
+      find="        if self.amount < amount_to_take {", replace="        if amount_to_take > self.amount {"),
+]
